@@ -143,7 +143,12 @@ class C04(DevProp):
     def soak_case(self, rng):
         """one case of the 'random' stream: random histories under the action discipline (also the stream of the extracted-model soak)"""
         cfg = devgen.gen_config(rng, with_exit=False, n_maps=rng.choice([1, 2, 3]))
-        h = devgen.gen_history(rng, cfg, rng.randint(20, 90), p_action=0.5, action_discipline=True)
+        if rng.random() < 0.3:
+            # an exit sequence whose completing presses are swallowed (some of its keys are action keys): a swallowed press must not act
+            acts = [a["code"] for a in cfg["actions"]]
+            notes = sorted({kk["code"] for m in cfg["mappings"] for kk in m["midi"]})
+            cfg["exitseq"] = rng.sample(acts, min(len(acts), rng.choice([1, 1, 2]))) + rng.sample(notes, min(len(notes), rng.choice([0, 1])))
+        h = devgen.gen_history(rng, cfg, rng.randint(20, 90), p_action=0.5, action_discipline=True, avoid_exit=False)
         return {"cfg": cfg, "abs": [], "events": h + devgen.release_all(h), "tag": "random"}
 
 
